@@ -369,6 +369,8 @@ class FnTr:
             code, ty, *steps = self.spec.subst[txt]        # (code, type) or (code, type, [fallible steps evaluated before it])
             return list(steps[0]) if steps else [], code, parse_type(ty)
         for h in EXPR_HOOKS:
+            if id(h) in HOOK_SCOPE and self.spec.module not in HOOK_SCOPE[id(h)]:
+                continue
             snap = self.snapshot()         # a hook that probes (translates a sub-expression to learn its type) and then declines leaves no trace
             try:
                 r = h(self, e, want)
@@ -1542,6 +1544,8 @@ class FnTr:
             new = ast.parse(textwrap.dedent(self.spec.stmt_subst[txt])).body
             return self.block(new)
         for h in STMT_HOOKS:
+            if id(h) in HOOK_SCOPE and self.spec.module not in HOOK_SCOPE[id(h)]:
+                continue
             snap = self.snapshot()
             try:
                 r = h(self, s)
@@ -2690,8 +2694,13 @@ spec(lean="redirect_tree", module="AlgoRedirect", file=_TU, func="redirect_tree"
 
 # further specs live one file per group in harness/algo_specs/*.py; each file is executed in THIS module's namespace (it calls `spec(...)` and may
 # extend MODULE_IMPORTS / MODULE_STRUCTS / STRUCTS / CLASS_INITS), in file-name order
+HOOK_SCOPE = {}      # id(hook) -> the generated modules of the plugin that registered it: a plugin's hooks serve its own specs only
 for _f in sorted((VERIF / "harness" / "algo_specs").glob("*.py")):
+    _n = (len(EXPR_HOOKS), len(STMT_HOOKS), len(SPECS))
     exec(compile(_f.read_text(), str(_f), "exec"), globals())
+    _mods = {sp.module for sp in SPECS[_n[2]:]}
+    for _h in EXPR_HOOKS[_n[0]:] + STMT_HOOKS[_n[1]:]:
+        HOOK_SCOPE[id(_h)] = _mods
 
 
 def regenerate(modules=None):
